@@ -1,7 +1,7 @@
 (* C09 — Compile-time constants keep their exact Python values.
    Only statements; proofs live in Proof/P_Consts.v, the model in Model/M_Consts.v. *)
 From Coq Require Import ZArith List Bool.
-From CyVerif Require Import Lib.CInt Model.M_Consts Proof.P_Consts.
+From CyVerif Require Import Lib.CInt Model.M_Consts Proof.P_Consts Model.M_ConstNames Proof.P_ConstNames.
 Import ListNotations.
 Open Scope Z_scope.
 
@@ -107,3 +107,97 @@ Example C09_nonvacuous :
   /\ fold_binop OAdd (LBool true) (LInt 1) = Some (FInt [48; 120; 50])
   /\ fold_binop OAnd (LBool true) (LBool false) = Some (FBool false).
 Proof. vm_compute. repeat split; reflexivity. Qed.
+
+(* ------------------------------------------------------------------------------------------ *)
+(* From the pooled key to the C name, the number-table slot and the run-time object             *)
+(* (Model/M_ConstNames.v, proofs in Proof/P_ConstNames.v)                                       *)
+(* ------------------------------------------------------------------------------------------ *)
+
+(* the character replacement of new_num_const_cname loses nothing on numeric spellings
+   (no '_', 'g', 'l', 'L'; '+' only after e/E, '.' never after e/E) *)
+Theorem C09_sanitize_injective : forall s1 s2,
+  spell_ok s1 = true -> spell_ok s2 = true -> sanitize s1 = sanitize s2 -> s1 = s2.
+Proof. exact sanitize_injective. Qed.
+Print Assumptions C09_sanitize_injective.
+
+(* unique_const_cname, for every format and every registry whose counters are >= 1 (they start
+   at 1 and only grow): it returns -- no KeyError, the while loop ends within len(used)+1 rounds --
+   a name that was not in use, registers it and forgets nothing *)
+Theorem C09_unique_const_cname_fresh : forall f d,
+  Forall (fun kv => 1 <= snd kv) d ->
+  exists n d', unique_const_cname f d = UOk n d'
+    /\ dmem n d = false /\ dmem n d' = true
+    /\ (forall k, dmem k d = true -> dmem k d' = true)
+    /\ Forall (fun kv => 1 <= snd kv) d'
+    /\ (n = fmt_base f \/ exists c, 1 < c /\ n = fmt_at f c).
+Proof. exact unique_const_cname_fresh. Qed.
+Print Assumptions C09_unique_const_cname_fresh.
+
+(* distinct (text, type) keys get distinct C names -- for every sequence of numeric-constant
+   requests of any spelling length (both sides of the 42-character abbreviation threshold, int,
+   'long' and float keys, negative values), interleaved in any way with the other users of
+   unique_const_cname; and a repeated key gets its first name again *)
+Theorem C09_num_const_names_injective : forall es,
+  forallb event_okb es = true ->
+  exists ns p, run_events es pool0 = Some (ns, p)
+    /\ Forall2 (fun e n => match e with EReq k => index_find k (p_index p) = Some n | EUniq _ => True end) es ns
+    /\ forall k1 k2 n1 n2, index_find k1 (p_index p) = Some n1 -> index_find k2 (p_index p) = Some n2 ->
+         (n1 = n2 <-> k1 = k2).
+Proof. exact num_const_names_injective. Qed.
+Print Assumptions C09_num_const_names_injective.
+
+(* the uniqueness counter is what the theorem rests on: without it 2**256 and 2**512 (as spelled
+   by IntNode.generate_evaluation_code) get one and the same name *)
+Theorem C09_names_need_counter :
+  event_okb (EReq (hex_2_256, PInt)) = true /\ event_okb (EReq (hex_2_512, PInt)) = true /\
+  exists n p, run_events_gen false [EReq (hex_2_256, PInt); EReq (hex_2_512, PInt)] pool0
+              = Some ([n; n], p).
+Proof. exact names_need_counter. Qed.
+Print Assumptions C09_names_need_counter.
+
+(* generate_num_constants: when the names are pairwise different, the (last) #define of every
+   integer constant selects a slot whose initialiser decodes to the constant's own value *)
+Theorem C09_layout_value : forall cs c v,
+  NoDup (map nc_name cs) -> In c cs -> nc_type c <> PFloat ->
+  str_to_number (nc_text c) = Some v ->
+  exists i s, resolve (nc_name c) (layout cs) = Some i
+    /\ nth_error (layout cs) (Z.to_nat i) = Some (nc_name c, s) /\ slot_value s = Some v.
+Proof. exact layout_value. Qed.
+Print Assumptions C09_layout_value.
+
+(* end to end: a Python int constant of value v -- spelled by IntNode.generate_evaluation_code,
+   pooled under that text, named, numbered, #defined and initialised -- evaluates to v at run
+   time, whatever else the module pools before and after it *)
+Theorem C09_int_constant_value : forall a es ns p code_of v t,
+  forallb event_okb es = true -> run_events es pool0 = Some (ns, p) ->
+  int_const_text a v = Some t -> In (EReq (t, PInt)) es ->
+  const_value p code_of (t, PInt) = Some v.
+Proof. exact int_constant_value. Qed.
+Print Assumptions C09_int_constant_value.
+
+(* the same for any pooled integer text of the spelling class (e.g. a 'long' key) *)
+Theorem C09_pool_const_value : forall es ns p code_of k v,
+  forallb event_okb es = true -> run_events es pool0 = Some (ns, p) ->
+  In (EReq k) es -> snd k <> PFloat -> str_to_number (fst k) = Some v ->
+  const_value p code_of k = Some v.
+Proof. exact pool_const_value. Qed.
+Print Assumptions C09_pool_const_value.
+
+(* non-vacuity: three large constants sharing their first and last 18 characters, a short one and
+   a float, with a foreign registry call in between: five different names, values preserved *)
+Example C09_names_nonvacuous :
+  let a := hex_2_256 in let b := hex_2_512 in let c := [45] ++ hex_2_256 in
+  let es := [EReq (a, PInt); EUniq (large_fmt PInt (sanitize b)); EReq (b, PInt); EReq (c, PInt);
+             EReq ([49; 50], PInt); EReq ([49; 46; 53; 101; 43; 51; 48], PFloat); EReq (a, PInt)] in
+  forallb event_okb es = true /\
+  match run_events es pool0 with
+  | Some ([n1; _; n2; n3; n4; n5; n6], p) =>
+      negb (zlist_eqb n1 n2) && negb (zlist_eqb n2 n3) && negb (zlist_eqb n1 n3) && zlist_eqb n1 n6
+      && zlist_eqb n4 (pfx_int ++ [49; 50]) && zlist_eqb n5 (pfx_float ++ [49; 95; 53; 101; 95; 51; 48])
+      && match const_value p (fun _ => []) (b, PInt), const_value p (fun _ => []) (c, PInt) with
+         | Some x, Some y => (x =? 2 ^ 512) && (y =? - 2 ^ 256)
+         | _, _ => false
+         end
+  | _ => false
+  end = true.
+Proof. vm_compute. split; reflexivity. Qed.
